@@ -1167,6 +1167,106 @@ Proof.
     + rewrite removelast_last. apply (guard_steps U nm m P); try assumption; [apply F|reflexivity].
 Qed.
 
+(* ------------------------------------------------------------------ the repair as a patch (skip flag) *)
+Definition mrg (best d : gres) : gres := match best with GNil => d | _ => best end.
+
+Fixpoint floop (skip : bool) (ds : list gres) (best : gres) : gres :=
+  match ds with
+  | [] => best
+  | d :: r =>
+    match d with
+    | GNil => floop skip r best
+    | _ => if negb skip || is_type_g d then d else floop skip r (mrg best d)
+    end
+  end.
+
+Lemma file_scope_loop_skip_floop U ps first nm skip : forall best,
+  file_scope_loop_skip U ps first nm skip best
+  = floop skip (map (fun p => file_scope_step U p first nm) ps) best.
+Proof.
+  induction ps as [|p ps IH]; intros best; cbn [file_scope_loop_skip map floop]; [reflexivity|].
+  destruct (file_scope_step U p first nm); rewrite ?IH; reflexivity.
+Qed.
+
+Lemma passes_skip ot smpl d : passes ot smpl d = negb (ot && smpl) || is_type_g d.
+Proof. unfold passes. destruct ot, smpl, (is_type_g d); reflexivity. Qed.
+
+Lemma mrg_nil_r best : mrg best GNil = best.
+Proof. destruct best; reflexivity. Qed.
+
+Lemma mrg_assoc a b c : mrg a (mrg b c) = mrg (mrg a b) c.
+Proof. destruct a, b; reflexivity. Qed.
+
+Lemma gloop_floop ot smpl : forall B b0 best, (b0 = GNil \/ passes ot smpl b0 = false) ->
+  gloop ot smpl [floop (ot && smpl) B b0] best = gloop ot smpl B (mrg best b0).
+Proof.
+  induction B as [|d B IH]; intros b0 best Hb; cbn [floop].
+  - destruct Hb as [->|Hb]; [now rewrite mrg_nil_r|].
+    destruct b0; [now rewrite mrg_nil_r| |]; rewrite gloop_cons_nonnil by discriminate; rewrite Hb; reflexivity.
+  - destruct d as [|n k|n].
+    + rewrite gloop_cons_nil. now apply IH.
+    + rewrite (gloop_cons_nonnil ot smpl (GDesc n k) B) by discriminate. rewrite <- passes_skip.
+      destruct (passes ot smpl (GDesc n k)) eqn:P.
+      * rewrite gloop_cons_nonnil by discriminate. now rewrite P.
+      * rewrite IH; [now rewrite mrg_assoc|]. right. destruct Hb as [->|Hb]; [exact P|]. destruct b0; [exact P|exact Hb|exact Hb].
+    + rewrite (gloop_cons_nonnil ot smpl (GSentinel n) B) by discriminate. rewrite <- passes_skip.
+      destruct (passes ot smpl (GSentinel n)) eqn:P.
+      * rewrite gloop_cons_nonnil by discriminate. now rewrite P.
+      * rewrite IH; [now rewrite mrg_assoc|]. right. destruct Hb as [->|Hb]; [exact P|]. destruct b0; [exact P|exact Hb|exact Hb].
+Qed.
+
+Lemma gloop_floop_app ot smpl B : forall A best,
+  gloop ot smpl (A ++ [floop (ot && smpl) B GNil]) best = gloop ot smpl (A ++ B) best.
+Proof.
+  induction A as [|d A IH]; intros best.
+  - cbn [app]. rewrite gloop_floop by now left. now rewrite mrg_nil_r.
+  - cbn [app]. destruct d as [|n k|n].
+    + rewrite !gloop_cons_nil. apply IH.
+    + rewrite !gloop_cons_nonnil by discriminate. destruct (passes ot smpl (GDesc n k)); [reflexivity|apply IH].
+    + rewrite !gloop_cons_nonnil by discriminate. destruct (passes ot smpl (GSentinel n)); [reflexivity|apply IH].
+Qed.
+
+Lemma resolve_loop_skip_gloop U first nm ot scopes best :
+  resolve_loop_skip U first nm ot scopes best
+  = gloop ot (name_eqb first nm)
+          (map (fun sc => run_scope_skip U sc first nm (ot && name_eqb first nm)) scopes) best.
+Proof.
+  revert best. induction scopes as [|sc r IH]; intros best; cbn [resolve_loop_skip map gloop]; [reflexivity|].
+  unfold passes. destruct (run_scope_skip U sc first nm (ot && name_eqb first nm)); rewrite ?IH; reflexivity.
+Qed.
+
+Lemma ds_skip U path elem P first nm skip : wf U -> scope_facts U path elem P ->
+  map (fun sc => run_scope_skip U sc first nm skip) (rev (scopes_for U path))
+  = map (fun sc => gstep U sc first nm) (map join_dots (rev (ext_prefixes P path)))
+    ++ [floop skip (map (fun sc => gstep U sc first nm) (map join_dots (npd P)) ++ [groot U nm]) GNil].
+Proof.
+  intros W F. unfold scopes_for. cbn [rev]. rewrite map_app. rewrite <- map_rev.
+  rewrite <- (msg_steps U path elem P) by assumption. f_equal.
+  - rewrite !map_map. reflexivity.
+  - cbn [map run_scope_skip]. f_equal. rewrite file_scope_loop_skip_floop. now rewrite (prefix_steps U path elem P).
+Qed.
+
+Lemma go_resolve_skip_fixed U path elem nm ot :
+  wf_universe U = true -> scope_ok U path elem = true ->
+  go_resolve_skip U path nm ot = go_resolve_fixed U path nm ot.
+Proof.
+  intros Hw Hs. apply wf_universe_wf in Hw. unfold go_resolve_skip, go_resolve_fixed, resolve.
+  destruct (starts_with_dot nm) eqn:Hsd; [reflexivity|].
+  pose proof (scope_ok_facts U path elem Hw Hs) as F. set (P := pkg_comps (f_pkg (u_self U))) in *.
+  rewrite resolve_loop_skip_gloop, resolve_loop_gloop.
+  rewrite (ds_skip U path elem P), (ds_fixed U path elem P) by assumption.
+  rewrite gloop_floop_app. rewrite app_assoc, <- !map_app. now rewrite ext_npd.
+Qed.
+
+Lemma patched_resolve_eq_protoc_lemma U path elem nm m :
+  wf_universe U = true -> scope_ok U path elem = true -> double_dot nm = false ->
+  Spec.outcome_of m (Spec.to_spec U (go_resolve_skip U path nm (Spec.only_types m)))
+  = Spec.outcome_of m (Spec.lookup U (relative_to U path elem) nm m).
+Proof.
+  intros Hw Hs Hdd. rewrite (go_resolve_skip_fixed U path elem) by assumption.
+  now apply repaired_resolve_eq_protoc_lemma.
+Qed.
+
 (* ------------------------------------------------------------------ witnesses *)
 (* package a.b: extension x and message M; imported package a: message x.
    Inside a.b.M the type reference x is a.x for protoc; the Go code stops at the extension a.b.x. *)
